@@ -320,6 +320,12 @@ def _errors(res, f, ev, liberr, OKV, FAILV):
                     seen.add(e.a)
                     res.check(c is not None and LT not in c, "C15.R3", sig, "success only after %s returned >= 0" % e.a,
                               "%s result (<0 = failure) is not tested before success is reported" % e.a, f.loc(e.node), p.describe(f))
+                elif failure and c is not None and EQ in c and GT not in c:
+                    # the failure exit is taken for a result of 0: the number of bytes produced for an empty original
+                    seen.add(e.a)
+                    res.bad("C15.R3", sig + ":zero-is-legal",
+                            "%s returning 0 (the empty buffer decoded to its 0 bytes; only negative results are errors) is refused: "
+                            "a buffer that compressed successfully does not decompress" % e.a, f.loc(e.node), p.describe(f))
             elif err.startswith("ZSTD_isError"):
                 isE = [x for x in evs if x.kind == "call" and x.a == "ZSTD_isError" and x.b[0] == e.c]
                 if success:
